@@ -15,6 +15,7 @@ type Expr struct {
 	Tok  string  // operator / identifier / literal
 	Args []*Expr // operands
 	Vars []BVar  // bound variables for quantifiers
+	Pats []*Expr // explicit trigger terms of a quantifier: forall k int {a[k], f(k)} :: body
 	Pos  int
 }
 
@@ -193,6 +194,22 @@ func (ps *parser) parseExpr(minPrec int) (*Expr, error) {
 				break
 			}
 		}
+		var pats []*Expr
+		if ps.accept("{") {
+			for {
+				pe, err := ps.parseExpr(1)
+				if err != nil {
+					return nil, err
+				}
+				pats = append(pats, pe)
+				if ps.accept("}") {
+					break
+				}
+				if err := ps.expect(","); err != nil {
+					return nil, err
+				}
+			}
+		}
 		if err := ps.expect("::"); err != nil {
 			return nil, err
 		}
@@ -200,7 +217,7 @@ func (ps *parser) parseExpr(minPrec int) (*Expr, error) {
 		if err != nil {
 			return nil, err
 		}
-		return &Expr{Op: t.text, Vars: vars, Args: []*Expr{body}, Pos: t.pos}, nil
+		return &Expr{Op: t.text, Vars: vars, Pats: pats, Args: []*Expr{body}, Pos: t.pos}, nil
 	}
 	lhs, err := ps.parseUnary()
 	if err != nil {
